@@ -319,6 +319,13 @@ def run_history(ops, purity=True):
         except Exception as e:  # noqa - outcome value
             out = {"raised": type(e).__name__}
         steps += 1
+        if subj is not None and hasattr(subj, "tracts"):
+            try:
+                out["all_parsed"] = all(
+                    bool(getattr(t, "parse_complete", False))
+                    for t in subj.tracts)
+            except Exception:  # noqa
+                out["all_parsed"] = False
         if pure:
             after = enc(subj, ctx, full=True)
             path, _ = compare(before, after, exact=True)
@@ -370,7 +377,7 @@ def _dependent(op):
     return False
 
 
-def normal_form(ops, raised):
+def normal_form(ops, raised, all_parsed=None):
     """
     N(H): the sub-history a freshly constructed object needs in order to be in
     the state H claims to leave behind.  Returns (ops', kept_index_map) where
@@ -432,6 +439,26 @@ def normal_form(ops, raised):
             continue
         # config_tracts, sort, filters with drop=True
         out.append(op), idx.append(k)
+    # Re-parse with unchanged settings: if the tracts were parsed by the
+    # description-level parse (or at creation) and, in N's own world, no
+    # tract setting changed and no other tract-level parse happened since,
+    # then a final plain parse_tracts() is a re-parse with unchanged settings
+    # and C14 says it must change nothing -> erase it.
+    if cls == "PLSSDesc" and all_parsed is not None and all_parsed[boundary] \
+            and not raised[boundary]:
+        pts = [j for j, k in enumerate(idx)
+               if k is not None and k > boundary and not raised[k]
+               and out[j]["op"] == "parse_tracts"]
+        if pts:
+            j = pts[-1]
+            opj = out[j]
+            start = idx.index(boundary) if boundary in idx else 0
+            between = [(out[i], idx[i]) for i in range(start + 1, j)]
+            blocked = any(
+                o["op"] in ("config_tracts", "parse_tracts")
+                or (ki is not None and raised[ki]) for o, ki in between)
+            if not opj["config"] and not opj["kw"] and not blocked:
+                del out[j], idx[j]
     return out, idx
 
 
@@ -473,7 +500,8 @@ def check_plan(plan):
     log = {"H": h["outcomes"], "final": h["final"]}
     nontrivial = False
     if h["final"] is not None:
-        nf, idx = normal_form(ops, raised)
+        all_parsed = [bool(o.get("all_parsed")) for o in h["outcomes"]]
+        nf, idx = normal_form(ops, raised, all_parsed)
         erased_committed = [
             k for k in range(1, len(ops))
             if k not in idx and not is_pure(ops[k])]
@@ -521,7 +549,7 @@ def check_plan(plan):
         nc = [k for k in range(1, len(ops))
               if ops[k]["op"] == "parse" and not ops[k]["commit"]]
         for k in nc[:2]:
-            pre, _ = normal_form(ops[:k], raised[:k])
+            pre, _ = normal_form(ops[:k], raised[:k], all_parsed[:k])
             t = fork_call(run_history, (pre + [ops[k]], False))
             execs += 1
             a, b = h["outcomes"][k], t["outcomes"][-1]
